@@ -266,6 +266,9 @@ Definition total_lag (s : gstate) : Z := fold_right (fun th a => lag th + a) 0 (
 
 Definition quiescent (s : gstate) : Prop := forall t, t_pc (get_thread (threads s) t) = Idle.
 
+Definition quiescent_b (s : gstate) : bool :=
+  forallb (fun th => match t_pc th with Idle => true | _ => false end) (threads s).
+
 (* ---- the invariant of Appendix A.4, as a predicate on states ---- *)
 Definition chain_inv (s : gstate) : Prop :=
   let C := g_chain s in
@@ -282,6 +285,9 @@ Definition ms_init (s : gstate) : Prop := s = init_state.
 Definition ms_label := ((tid * choice) * sobs)%type.
 Definition ms_step (s : gstate) (l : ms_label) (s' : gstate) : Prop :=
   tstep s (fst (fst l)) (snd (fst l)) = (s', snd l).
+
+(* the same step function with the scheduler's choice as one argument (Lib/Interleave.run) *)
+Definition ms_fstep (s : gstate) (a : tid * choice) : gstate * sobs := tstep s (fst a) (snd a).
 
 (* ---- trace runner: family "msqueue" ---- *)
 Open Scope string_scope.
